@@ -203,6 +203,7 @@ def run_shard(spec):
     # ---- negative side
     leaves = values.unsupported_leaves()
     g.huge_ints = False  # the surrounding value must itself be serialisable on this interpreter
+    g.pool.clear()
     DumpError = execnet.DumpError
     nneg = 0
     for li, (label, factory, hashable) in enumerate(leaves):
